@@ -55,12 +55,7 @@ Theorem chunk_canonical_refuted :
   exists wl e a b c x, In wl chunk_lists /\ In a wl /\ In b wl /\ In c wl /\
     words_to_chunk_current wl e a b c = Ok x /\ length x = 5%nat /\
     words_to_chunk wl e a b c = Err ValueError.
-Proof.
-  exists wl_xmr_english, Little, (nth 0 wl_xmr_english []), (nth 0 wl_xmr_english []),
-         (nth 1625 wl_xmr_english []), [4; 80; 20; 0; 1].
-  pose proof Lemmas.MnemWitness.chunk_refuted_witness as W. cbv zeta in W.
-  repeat split; try tauto. right; right; left; reflexivity.
-Qed.
+Proof. exact Lemmas.MnemC17.c17_chunk_canonical_refuted. Qed.
 Print Assumptions chunk_canonical_refuted.
 
 (* ... and what does hold of the code as it stands: it accepts exactly the triples of list words, the
@@ -160,14 +155,7 @@ Theorem monero_accepts_iff : forall conformant lang L ws, nth_error xmr_langs la
                         | [a; b; c] => exists v, words_packed (fst L) a b c = Ok v /\ v < 2 ^ 32
                         | _ => False end)
               (groups 3 (Nat.div (length ws) 3) ws)))).
-Proof.
-  intros conformant lang L ws HL.
-  pose proof (Lemmas.MnemC17.xmr_accepts_iff conformant lang L ws HL) as H.
-  unfold Lemmas.MoneroMnemonic.accepts_spec in H.
-  rewrite <- (Lemmas.MnemConstsOk.xmr_nums_spec (length ws)), <- (Lemmas.MnemConstsOk.xmr_chk_spec (length ws)) in H.
-  rewrite <- !(memb_In (N.of_nat (length ws))).
-  destruct conformant; exact H.
-Qed.
+Proof. exact Lemmas.MnemC17.xmr_accepts_iff_explicit. Qed.
 Print Assumptions monero_accepts_iff.
 
 (* failures stay in the documented family *)
@@ -341,6 +329,8 @@ Section ElectrumV2Defs.
     ElectrumV2Mnemonic.decode b39_langs ev2_langs ev2_word_nums ev2_type_prefixes ev2_hmac_key hmac b39v ev1v.
   Definition ev2_attempts gate :=
     ElectrumV2Mnemonic.attempts ev2_langs ev2_type_prefixes ev2_hmac_key ev2_max_attempts hmac b39v ev1v gate.
+  Definition ev2_from_entropy gate :=
+    ElectrumV2Mnemonic.from_entropy ev2_langs ev2_type_prefixes ev2_hmac_key ev2_max_attempts hmac b39v ev1v gate.
 End ElectrumV2Defs.
 
 (* the entropy-size gate: AreEntropyBitsEnough with floor(log2) read exactly (code as it stands) and with
@@ -452,3 +442,13 @@ Theorem electrum_v2_from_entropy : forall hmac b39v ev1v gate ty lang e fuel i w
       ev2_encode hmac b39v ev1v gate ty lang (int_to_be_auto (e + (i + j))) = Err UnicodeError.
 Proof. intros hmac b39v ev1v gate ty lang e. exact (Lemmas.MnemC17.ev2_attempts_spec hmac b39v ev1v gate ty lang e). Qed.
 Print Assumptions electrum_v2_from_entropy.
+
+(* ... so that what FromEntropy returns under the conformant gate has 12 or 24 words and decodes to the
+   starting entropy plus k, k < MAX_ATTEMPTS *)
+Theorem electrum_v2_generated_decodes : forall hmac b39v ev1v fuel ty lang b ws,
+  ev2_from_entropy hmac b39v ev1v ev2_gate_conformant fuel ty lang b = Ok ws ->
+  exists k, k < ev2_max_attempts /\ (length ws = 12 \/ length ws = 24)%nat /\
+    forall dty dlang, dty = Some ty \/ dty = None -> dlang = Some lang \/ dlang = None ->
+      ev2_decode hmac b39v ev1v dty dlang ws = Ok (int_to_be_auto (be_to_int b + k)).
+Proof. exact Lemmas.MnemC17.ev2_generated_decodes. Qed.
+Print Assumptions electrum_v2_generated_decodes.
